@@ -4,6 +4,8 @@ package main
 // reachable from the packet path and from reply consumers.
 
 import (
+	"fmt"
+	"go/token"
 	"go/types"
 	"sort"
 	"strings"
@@ -38,6 +40,17 @@ func (w *World) panicSites(fn *ssa.Function) []panicSite {
 					}
 				}
 				out = append(out, panicSite{ins, "panic", d})
+			case *ssa.BinOp:
+				if i.Op != token.QUO && i.Op != token.REM {
+					continue
+				}
+				if bt, ok := i.Type().Underlying().(*types.Basic); !ok || bt.Info()&types.IsInteger == 0 {
+					continue
+				}
+				if c, ok := ConstInt(i.Y); ok && c != 0 {
+					continue
+				}
+				out = append(out, panicSite{ins, "div", "divisor " + trunc(w.TS.Of(i.Y).String(), 80)})
 			case *ssa.TypeAssert:
 				if !i.CommaOk {
 					out = append(out, panicSite{ins, "assert", w.TS.Of(i.X).String() + ".(" + relTypeString(i.AssertedType) + ")"})
@@ -184,6 +197,14 @@ func c01r6(w *World, rr *RuleRun) {
 				rr.At(w, ps.Ins, ps.Kind+" site "+ps.Desc, true, "assumed invariant: "+reason)
 				continue
 			}
+			if ps.Kind == "div" {
+				if ok, how := w.divisorNonZero(ps.Ins.(*ssa.BinOp)); ok {
+					rr.At(w, ps.Ins, "integer division: "+ps.Desc, true, how)
+				} else {
+					rr.At(w, ps.Ins, "integer division: "+ps.Desc, false, "the divisor is not shown to be non-zero on the packet / reply path: "+how)
+				}
+				continue
+			}
 			if ps.Kind == "assert" {
 				if ok, how := w.recoveredBy(ps.Ins); ok {
 					rr.At(w, ps.Ins, ps.Kind+" site "+ps.Desc, true, how)
@@ -194,4 +215,65 @@ func c01r6(w *World, rr *RuleRun) {
 		}
 	}
 	rr.rep.Extra["assumed_invariants"] = assumed
+}
+
+// divisorNonZero: the divisor is a struct field that only ever receives non-zero constants, or a
+// non-zero fact about it holds on every path to the division.
+func (w *World) divisorNonZero(bo *ssa.BinOp) (bool, string) {
+	v := bo.Y
+	for i := 0; i < 4; i++ {
+		switch x := v.(type) {
+		case *ssa.Convert:
+			v = x.X
+			continue
+		case *ssa.ChangeType:
+			v = x.X
+			continue
+		}
+		break
+	}
+	if ld, ok := v.(*ssa.UnOp); ok && ld.Op == token.MUL {
+		if fv := fieldOfAddr(ld.X); fv != nil {
+			if _, isFA := ld.X.(*ssa.FieldAddr); isFA {
+				ws := w.FieldWrites(w.P.LibFuncs, fv)
+				okAll := len(ws) > 0
+				for _, st := range ws {
+					s, isStore := st.(*ssa.Store)
+					if !isStore {
+						okAll = false
+						continue
+					}
+					if c, ok := ConstInt(s.Val); !ok || c == 0 {
+						okAll = false
+					}
+				}
+				if okAll {
+					return true, fmt.Sprintf("field %s only ever receives non-zero constants (%d stores)", fv.Name(), len(ws))
+				}
+			}
+		}
+	}
+	if fx, ok := v.(*ssa.Field); ok {
+		_ = fx
+	}
+	dt := w.TS.Of(v)
+	st := w.FE.StateBefore(bo)
+	if len(st) == 0 {
+		return false, "no state"
+	}
+	for _, alt := range st {
+		d := w.FE.Resolve(alt, v)
+		nz := alt.Has("b", false, func(x *Term) bool {
+			return x.Op == OpBin && x.Name == "==" && ((x.Args[0].IsConst("0") && (termEq(x.Args[1], d) || termEq(x.Args[1], dt))) || (x.Args[1].IsConst("0") && (termEq(x.Args[0], d) || termEq(x.Args[0], dt))))
+		}) || alt.Has("b", true, func(x *Term) bool {
+			return x.Op == OpBin && x.Name == "<" && x.Args[0].IsConst("0") && (termEq(x.Args[1], d) || termEq(x.Args[1], dt))
+		})
+		if c, ok := termInt(d); ok && c != 0 {
+			nz = true
+		}
+		if !nz {
+			return false, "divisor " + trunc(d.String(), 80) + " may be zero"
+		}
+	}
+	return true, "non-zero on every path"
 }
